@@ -161,7 +161,8 @@ func runSelftest(args []string) int {
 			for _, r := range results {
 				for _, ob := range r.ctx.obligations {
 					generated[ob.Name] = true
-					if claimed[ob.Name] && !obOK(ob) {
+					generated[ob.group()] = true
+					if (claimed[ob.group()] || ob.Auto) && !obOK(ob) {
 						failed = append(failed, ob.Name)
 					}
 				}
